@@ -32,7 +32,19 @@ SIGNATURES = [
     ([(0, 1), (2, 2), (1, 2)], []),
     ([(3, 1), (0, 2)], [(2, 1), (3, 2)]),
     ([(0, 3)], [(1, 2), (0, 1)]),
+    # only used by the mixed-dtype family below (not drawn at random): every dynamic identity <= 2048
+    ([(0, 2)], [(0, 2), (3, 1), (1, 1)]),
 ]
+N_DRAWN = 5  # the signatures drawn per configuration
+
+# mixed-dtype families: name -> (dynamic dtype, constant dtype, scale, offset). A constant field with identity
+# c holds the float32 value c*scale + offset (exact in float32, never an integer, not representable in the
+# dynamic dtype), the dynamic frames hold their identity in the dynamic dtype (exact). Identities are decoded
+# back through the inverse map, so the same expected()/first_diff oracle judges these cases.
+MIXES = {
+    "int32+float32": ("int32", "float32", 1.0, 0.5),
+    "float16+float32": ("float16", "float32", 1.0 / 64, 0.0),
+}
 
 
 def code(ti, ch, t, b=0):
@@ -56,9 +68,11 @@ def const_codes(sig, b=0):
     return [(ti, [ccode(ti, ch, b) for ch in range(c)]) for ti, c in sig]
 
 
-def fill(codes, N, k):
-    """list of identities -> block (len, N, N, (2,)*k) of constant frames"""
-    a = np.asarray(codes, dtype=np.float32)
+def fill(codes, N, k, dtype="float32", scale=1.0, offset=0.0):
+    """list of identities -> block (len, N, N, (2,)*k) of constant frames holding identity*scale + offset"""
+    exact = np.asarray(codes, dtype=np.float64) * scale + offset
+    a = exact.astype(dtype)
+    assert np.array_equal(a.astype(np.float64), exact), "identities must be exact in the chosen dtype"
     shape = (len(codes),) + (N,) * D + (D,) * k
     return np.broadcast_to(a.reshape((-1,) + (1,) * (D + k)), shape).copy()
 
@@ -66,7 +80,7 @@ def fill(codes, N, k):
 _MI_CACHE = {}
 
 
-def make_mi(geom, jnp, per_traj, N):
+def make_mi(geom, jnp, per_traj, N, dtype="float32", scale=1.0, offset=0.0):
     """per_traj: list over trajectories (or a single one, unbatched) of [(ti, codes)]"""
     data = {}
     batched = isinstance(per_traj, tuple)
@@ -74,15 +88,19 @@ def make_mi(geom, jnp, per_traj, N):
     for pos in range(len(trajs[0])):
         ti = trajs[0][pos][0]
         k, par = TYPES[ti]
-        blocks = [fill(tr[pos][1], N, k) for tr in trajs]
+        blocks = [fill(tr[pos][1], N, k, dtype, scale, offset) for tr in trajs]
         arr = np.stack(blocks) if batched else blocks[0]
         data[(k, par)] = jnp.asarray(arr)
+        assert str(data[(k, par)].dtype) == dtype
     return geom.MultiImage(data, D, True)
 
 
-def decode(block, N, k):
-    """(n, ch, spatial, tensor) -> [w][chan] = [identity, level]; anything unexpected is marked"""
-    a = np.asarray(block)
+def decode(block, N, k, cmap=None):
+    """(n, ch, spatial, tensor) -> [w][chan] = [identity, level]; anything unexpected is marked.
+    cmap = (scale, offset) of a mixed-dtype family: constant fields hold identity*scale + offset (never an
+    integer), so there an integer value is an identity only if it is a dynamic one, and a non-integer value
+    is the identity of a constant field only if it is exactly the value of one."""
+    a = np.asarray(block).astype(np.float64)
     if a.ndim != 2 + D + k:
         return ["bad-rank", list(a.shape)]
     n, ch = a.shape[:2]
@@ -102,16 +120,28 @@ def decode(block, N, k):
         row = []
         for c in range(ch):
             v = float(vals[w, c])
-            if const[w, c] and v == int(v):
-                row.append([int(v), level])
+            if not np.isfinite(v):
+                row.append(["garbled", repr(v)])
+            elif cmap is None:
+                if const[w, c] and v == int(v):
+                    row.append([int(v), level])
+                else:
+                    row.append(["garbled", v])
             else:
-                row.append(["garbled", v])
+                u = (v - cmap[1]) / cmap[0]
+                if const[w, c] and v == int(v) and parse_code(int(v))[0] == "dyn":
+                    row.append([int(v), level])
+                elif (const[w, c] and v != int(v) and u == int(u) and int(u) * cmap[0] + cmap[1] == v
+                      and parse_code(int(u))[0] == "const"):
+                    row.append([int(u), level])
+                else:
+                    row.append(["garbled", v])
         out.append(row)
     return out
 
 
-def decode_mi(mi, N):
-    return {f"{k},{par}": decode(blk, N, k) for (k, par), blk in mi.items()}
+def decode_mi(mi, N, cmap=None):
+    return {f"{k},{par}": decode(blk, N, k, cmap) for (k, par), blk in mi.items()}
 
 
 # ---------------------------------------------------------------------------------------------
@@ -227,20 +257,24 @@ def check_idxs(ctx: Ctx, data, Tmax):
                                   dict(case, model=mod))
 
 
-def run_windows(ctx: Ctx, data, geom, jnp, si, T, p, f, dt, s, ds, N, B):
-    """one configuration through times_series_to_multi_images (B is None) or batch_time_series"""
+def run_windows(ctx: Ctx, data, geom, jnp, si, T, p, f, dt, s, ds, N, B, mix=None):
+    """one configuration through times_series_to_multi_images (B is None) or batch_time_series;
+    mix: a key of MIXES (dynamic and constant fields of different dtypes) or None (float32 everywhere)"""
     dsig, csig = SIGNATURES[si]
     n = n_windows(T, p, f, dt, s)
-    ck = (si, T, N, B)
+    ddt, cdt, cscale, coff = MIXES[mix] if mix else ("float32", "float32", 1.0, 0.0)
+    cmap = (cscale, coff) if mix else None
+    ck = (si, T, N, B, mix)
     if ck not in _MI_CACHE:
         if len(_MI_CACHE) > 64:
             _MI_CACHE.clear()
         if B is None:
-            _MI_CACHE[ck] = (make_mi(geom, jnp, dyn_codes(dsig, T), N), make_mi(geom, jnp, const_codes(csig), N))
+            _MI_CACHE[ck] = (make_mi(geom, jnp, dyn_codes(dsig, T), N, ddt),
+                             make_mi(geom, jnp, const_codes(csig), N, cdt, cscale, coff))
         else:
             _MI_CACHE[ck] = (
-                make_mi(geom, jnp, tuple(dyn_codes(dsig, T, b) for b in range(B)), N),
-                make_mi(geom, jnp, tuple(const_codes(csig, b) for b in range(B)), N),
+                make_mi(geom, jnp, tuple(dyn_codes(dsig, T, b) for b in range(B)), N, ddt),
+                make_mi(geom, jnp, tuple(const_codes(csig, b) for b in range(B)), N, cdt, cscale, coff),
             )
     dyn, const = _MI_CACHE[ck]
     case = {
@@ -250,12 +284,15 @@ def run_windows(ctx: Ctx, data, geom, jnp, si, T, p, f, dt, s, ds, N, B):
         "constant_signature": [[*TYPES[ti], c] for ti, c in csig],
         "encoding": "frame = b*10^6 + type*10^5 + channel*10^3 + t ; constants type*10^5 + 90000 + channel",
     }
+    if mix:
+        case.update(dynamic_dtype=ddt, constant_dtype=cdt,
+                    constant_values=f"identity*{cscale!r} + {coff!r} (float32, exact); dynamic frames hold their identity")
     try:
         if B is None:
             X, Y = data.times_series_to_multi_images(dyn, const, T, p, f, s, dt, ds)
         else:
             X, Y = data.batch_time_series(dyn, const, T, p, f, s, dt, ds)
-        impl = (decode_mi(X, N), decode_mi(Y, N))
+        impl = (decode_mi(X, N, cmap), decode_mi(Y, N, cmap))
     except Exception as e:  # noqa: BLE001
         impl = "rejected:" + type(e).__name__
     jd = lambda codes: [[key_str(ti), c] for ti, c in codes]  # noqa: E731
@@ -271,9 +308,10 @@ def run_windows(ctx: Ctx, data, geom, jnp, si, T, p, f, dt, s, ds, N, B):
     except DriverReject:
         mod = "rejected"
     nontriv = n >= 2 and p + f >= 3
-    ctx.case(("win", si, T, p, f, dt, s, ds, N, B), nontriv,
+    ctx.case(("win", si, T, p, f, dt, s, ds, N, B) + ((mix,) if mix else ()), nontriv,
              sample=dict(case, n_samples=n) if (T, p, f, dt, s) == (9, 2, 2, 2, 1) else None)
     ctx.hist("fn", case["fn"])
+    ctx.hist("dtypes", mix or "float32+float32")
     ctx.hist("dt", dt)
     ctx.hist("skip", s)
     ctx.hist("downsample", ds)
@@ -334,9 +372,12 @@ def run(ctx: Ctx):
         "times_series_to_multi_images with a dynamic/constant signature drawn per configuration from 5 "
         "(2-3 tensor types incl. vectors, pseudoscalars, 2-tensors, 1-3 channels, constant-only types, "
         "types without constants), downsample 1 on a subset (thorough: also 2), spatial side 2 or 4; fixed configurations with downsample 2 and 3 (sides 4, 8), also batched incl. a batch of one trajectory; "
-        "batch_time_series on a subset (thorough: all, 1..3 trajectories); time_series_idxs alone for all "
+        "batch_time_series on a subset (thorough: all, 1..3 trajectories); fixed configurations with dynamic and "
+        "constant fields of different dtypes at downsample 0 (int32 dynamic + float32 half-integer constants, all "
+        "signatures with constants, also batched; float16 dynamic + float32 constants that float16 cannot hold, "
+        "one trajectory): the constants of every input compared by value; time_series_idxs alone for all "
         "(p, f, dt <= 3, total_steps -1..Tmax). A case is non-trivial when it has >= 2 windows and "
-        "p + f >= 3; distinct = distinct (function, signature, T, p, f, dt, skip, downsample, side, trajectories)."
+        "p + f >= 3; distinct = distinct (function, signature, T, p, f, dt, skip, downsample, side, trajectories, dtypes)."
     )
     ctx.assumptions = [
         "p, f, dt >= 1 (p = 0, f = 0, dt = 0 are rejected by model and code but not compared)",
@@ -355,7 +396,7 @@ def run(ctx: Ctx):
             configs.append((T2, p, f, dt, s))
     for T, p, f, dt, s in configs:
         n = n_windows(T, p, f, dt, s)
-        si = int(rng.integers(len(SIGNATURES)))
+        si = int(rng.integers(N_DRAWN))
         N = 2 if rng.integers(3) else 4
         run_windows(ctx, data, geom, jnp, si, T, p, f, dt, s, 0, N, None)
         if n < 1:
@@ -379,9 +420,27 @@ def run(ctx: Ctx):
     # multiple of it), per trajectory and batched, incl. a batch of exactly one trajectory
     for T, p, f, dt, s in [(6, 2, 1, 1, 0), (7, 1, 2, 2, 1)]:
         run_windows(ctx, data, geom, jnp, 1, T, p, f, dt, s, 2, 4, None)
-        run_windows(ctx, data, geom, jnp, 2 % len(SIGNATURES), T, p, f, dt, s, 3, 8, None)
+        run_windows(ctx, data, geom, jnp, 2, T, p, f, dt, s, 3, 8, None)
         run_windows(ctx, data, geom, jnp, 0, T, p, f, dt, s, 3, 8, 2)
         run_windows(ctx, data, geom, jnp, 1, T, p, f, dt, s, 2, 8, 1)
         run_windows(ctx, data, geom, jnp, 1, T, p, f, dt, s, 1, 2, 1)
+    # dynamic and constant fields of different dtypes: "constant fields are appended unchanged to every input"
+    # must hold for the values, whatever the dtype of the dynamic windows they are appended to. (No downsampling:
+    # pooling of integer / half-precision frames is not exact.) int32 dynamic + float32 half-integer constants,
+    # every signature with constants, per trajectory and batched; float16 dynamic (identities <= 2048 only:
+    # one scalar dynamic type, a single trajectory) + float32 constants that float16 cannot hold.
+    mixed = [(9, 2, 2, 2, 1), (6, 2, 1, 1, 0), (7, 1, 2, 2, 1), (8, 3, 1, 1, 2), (5, 1, 1, 3, 0)]
+    if not quick:
+        mixed += [(11, 2, 3, 2, 0), (12, 3, 3, 1, 1), (10, 1, 3, 3, 0), (4, 1, 1, 1, 2)]
+    for i, (T, p, f, dt, s) in enumerate(mixed):
+        for si in (0, 1, 3, 4, 5):
+            N = 2 if (i + si) % 2 else 4
+            run_windows(ctx, data, geom, jnp, si, T, p, f, dt, s, 0, N, None, mix="int32+float32")
+            if quick and (i + si) % 2:
+                continue
+            run_windows(ctx, data, geom, jnp, si, T, p, f, dt, s, 0, N, 1 + (i + si) % 3, mix="int32+float32")
+        for si in (4, 5):
+            run_windows(ctx, data, geom, jnp, si, T, p, f, dt, s, 0, 2 if i % 2 else 4, None, mix="float16+float32")
+            run_windows(ctx, data, geom, jnp, si, T, p, f, dt, s, 0, 2, 1, mix="float16+float32")
     ctx.exhaustive = True
     ctx.notes["exhaustive_scope"] = f"all (T<={Tmax}, p,f,dt<=3, skip<=2) at downsample 0; subsets for downsample/batches"
